@@ -38,6 +38,7 @@ func (namedStrCustom) EventTypeName() string { return "c15.named-string" }
 
 type upTo struct{ ID int }
 type upFrom struct{ ID int }
+type upFrom0 struct{ ID int }
 
 type entity struct{ N int }
 
@@ -55,8 +56,8 @@ type caseCtx struct {
 }
 
 func shapeCase[T any](c *caseCtx, shape string, mk func(int) T, idOf func(T) int, customName bool) {
-	for _, kind := range []string{"memory", "sqlite-mem", "memory-paged"} {
-		for _, api := range []string{"persist-name", "replay-eventtype-compare", "subscribe-replay-phase", "subscribe-live-phase", "upcast-as-source", "upcast-rename-only", "upcast-as-target", "upcast-target-into-subscription"} {
+	for _, kind := range []string{"memory", "sqlite-mem", "memory-paged", "sqlite-batch2"} {
+		for _, api := range []string{"persist-name", "replay-eventtype-compare", "subscribe-replay-phase", "subscribe-live-phase", "upcast-as-source", "upcast-rename-only", "upcast-as-target", "upcast-target-into-subscription", "upcast-chain-into-subscription", "name-after-upcasting-replay"} {
 			sig := fmt.Sprintf("%s|%s|%s", shape, api, kind)
 			msg := apiCase(c, kind, api, mk, idOf)
 			c.run.Case(sig, customName)
@@ -192,6 +193,48 @@ func apiCase[T any](c *caseCtx, kind, api string, mk func(int) T, idOf func(T) i
 		}
 		if fmt.Sprint(got) != "[204 6]" {
 			return fmt.Sprintf("SubscribeWithReplay[T] received %v, want [204 6] (an upcast old event and a native one)", got)
+		}
+	case "upcast-chain-into-subscription":
+		// two typed hops (upFrom0 -> upFrom -> T): the oldest version, persisted under its own name, must
+		// reach the typed subscription of the newest
+		ebu.Publish(bus, upFrom0{ID: 4})
+		ebu.Publish(bus, upFrom{ID: 5})
+		ebu.Publish(bus, mk(6))
+		bus2 := newBus()
+		if err := ebu.RegisterUpcast(bus2, func(f upFrom0) upFrom { return upFrom{ID: f.ID + 1000} }); err != nil {
+			return "RegisterUpcast: " + err.Error()
+		}
+		if err := ebu.RegisterUpcast(bus2, func(f upFrom) T { return mk(f.ID + 200) }); err != nil {
+			return "RegisterUpcast: " + err.Error()
+		}
+		var got []int
+		if err := ebu.SubscribeWithReplay(ctx, bus2, "s3", func(e T) { got = append(got, idOf(e)) }); err != nil {
+			return "SubscribeWithReplay: " + err.Error()
+		}
+		if fmt.Sprint(got) != "[1204 205 6]" {
+			return fmt.Sprintf("SubscribeWithReplay[T] behind a chain of two typed upcasts received %v, want [1204 205 6] (two-hop, one-hop and native event)", got)
+		}
+	case "name-after-upcasting-replay":
+		// an upcasting replay hands out renamed events; the persisted name of T stays what EventType says
+		ebu.Publish(bus, mk(1))
+		if err := ebu.RegisterUpcast(bus, func(t T) upTo { return upTo{ID: idOf(t) + 100} }); err != nil {
+			return "RegisterUpcast: " + err.Error()
+		}
+		if err := bus.ReplayWithUpcast(ctx, ebu.OffsetOldest, func(*ebu.StoredEvent) error { return nil }); err != nil {
+			return "ReplayWithUpcast: " + err.Error()
+		}
+		var viaSub []int
+		ebu.SubscribeWithReplay(ctx, bus, "s4", func(e upTo) { viaSub = append(viaSub, e.ID) })
+		if evs := readAll(); len(evs) != 1 || evs[0].Type != name {
+			return fmt.Sprintf("after an upcasting replay (and an upcasting replay subscription) the record of T is stored under %q, EventType reports %q", evs[0].Type, name)
+		}
+		bus2 := newBus()
+		var got []int
+		if err := ebu.SubscribeWithReplay(ctx, bus2, "s5", func(e T) { got = append(got, idOf(e)) }); err != nil {
+			return "SubscribeWithReplay: " + err.Error()
+		}
+		if fmt.Sprint(got) != "[1]" {
+			return fmt.Sprintf("after an upcasting replay on another bus, SubscribeWithReplay[T] replayed %v of the persisted events [1]", got)
 		}
 	}
 	return ""
